@@ -15,7 +15,7 @@ RULE = (
     "record of each job = the job run FIRST in its own fresh interpreter; then every ordered pair of jobs (thorough: every triple over "
     "a subset) is run in a long-lived process without resetting cache/ or the process, and every job's record must equal its fresh "
     "twin; for CsvPaths jobs a second fresh process reusing the first one's sandbox (cache populated by an earlier process) must "
-    "agree too; non-trivial = the history contains two different jobs; state = (job, position in history)"
+    "agree too; two jobs exist both as a directly created CsvPath and as a CsvPaths-managed run and must give the same lines, variables, verdict and counters; non-trivial = the history contains two different jobs; state = (job, position in history)"
 )
 BOUNDS = {
     "quick": "22 jobs: 22 fresh-process references + 9 warm-cache fresh processes; all 484 ordered pairs + 1,000 triples over a 10-job subset",
@@ -65,6 +65,8 @@ JOBS = [
 PATHS_JOBS = [i for i, j in enumerate(JOBS) if j["kind"] == "paths"]
 SUB10 = [0, 1, 2, 3, 4, 5, 12, 14, 17, 19]
 SUB6 = [1, 2, 5, 14, 17, 21]
+
+TWINS = [(7, 20), (12, 14)]  # same csvpath and file: CsvPath created directly vs by a CsvPaths instance
 
 REFS = {}
 WARM = {}
@@ -197,6 +199,12 @@ def run_case(case):
             keys = sorted(k for k in set(rec) | set(ref) if rec.get(k) != ref.get(k))
             bad(f"record differs from the same job run first in a fresh process: {keys}", {k: rec.get(k) for k in keys}, {k: ref.get(k) for k in keys}, i)
         states.append(run.h64((i, pos)))
+    if case.get("warmcheck"):
+        for a, b in TWINS:
+            if hist[0] == a and a in REFS and b in REFS:
+                for k in ("lines", "vars", "is_valid", "scan_count", "match_count"):
+                    if REFS[a].get(k) != REFS[b].get(k):
+                        bad(f"direct CsvPath vs CsvPaths-managed run differ in {k}", REFS[b].get(k), REFS[a].get(k), a)
     if case.get("warmcheck") and hist[0] in WARM:
         i = hist[0]
         if WARM[i] != REFS[i]:
